@@ -6,6 +6,8 @@ import NxModel.DriverUtil
   new <ch> <start> <size> none                 create a channel without cipher (lite / stream transports)
   new <ch> <start> <size> rc4 <keyhex> <n>     RC4 with the given key; key stream precomputed for n bytes
   send <ch> <hex> | ping <ch> | disc <ch>      sender ops; answer: the wires appended `id:kind:frag:cipherhex` space separated
+  begin <ch> <hex>                             `send` up to its fragment loop; answer: `pending=<n>` (fragments still to be emitted)
+  frag <ch>                                    one turn of the fragment loop; answer: the wire appended (empty if nothing is pending)
   arrive <ch> <j>                              receiver op; answer: `ok=<opOk> nrel=<n> out=<count>`
   state <ch>                                   `next=<id> buf=<ids> frag=<hex> closed=<0|1> decpos=<n> nrel=<n> sent=<count> out=<hex,..>`
 -/
@@ -64,6 +66,9 @@ def step (st : List Inst) (line : String) : List Inst × String :=
       | "ping" =>
         let ch' := Chan.step c i.size i.ch .ping
         (setInst { i with ch := ch' } st, " ".intercalate ((ch'.s.log.drop i.ch.s.log.length).map showWire))
+      | "frag" =>
+        let ch' := Chan.step c i.size i.ch .frag
+        (setInst { i with ch := ch' } st, " ".intercalate ((ch'.s.log.drop i.ch.s.log.length).map showWire))
       | "disc" =>
         let ch' := Chan.step c i.size i.ch .disconnect
         (setInst { i with ch := ch' } st, " ".intercalate ((ch'.s.log.drop i.ch.s.log.length).map showWire))
@@ -78,6 +83,13 @@ def step (st : List Inst) (line : String) : List Inst × String :=
       let c := ksCipher i.ks
       let ch' := Chan.step c i.size i.ch (.send m)
       (setInst { i with ch := ch' } st, " ".intercalate ((ch'.s.log.drop i.ch.s.log.length).map showWire))
+    | _, _ => (st, "bad-op")
+  | ["begin", name, msg] =>
+    match findInst name st, fromHex msg with
+    | some i, some m =>
+      let c := ksCipher i.ks
+      let ch' := Chan.step c i.size i.ch (.begin m)
+      (setInst { i with ch := ch' } st, s!"pending={ch'.s.pending.length}")
     | _, _ => (st, "bad-op")
   | ["arrive", name, j] =>
     match findInst name st, j.toNat? with
